@@ -387,6 +387,9 @@ impl<C: Config> Engine<C> {
             return Err(CyclicError);
         }
 
+        #[cfg(feature = "verif")]
+        qbice_storage::verif::yield_point("pre:computing:exit_scc_wait").await;
+
         notified.await;
 
         Ok(false)
@@ -512,6 +515,9 @@ impl<C: Config, Q: Query> Snapshot<C, Q> {
 
                 drop(entry);
                 drop(self);
+
+                #[cfg(feature = "verif")]
+                qbice_storage::verif::yield_point("pre:computing:wait_existing").await;
 
                 // wait for the existing computing to finish
                 notified_owned.await;
